@@ -83,6 +83,38 @@ def late_modulus_tail(plan):
     plan["body"].extend(tail)
 
 
+def boundary_region_tail(plan):
+    """One run in eight ends with a region guarded by a secret condition (usually true) in which operands at the
+    edges of the signed bitlength range meet in comparisons, shifts and bit operations: the Python-level self check of
+    a constraint is skipped under a guard, so only the recorded witness can tell (draws from a generator of its own)."""
+    if plan["cfg"].get("max_nesting", 0) < 1:
+        return
+    r2 = _random.Random("edge-tail/%s" % P.plan_digest(plan))
+    if r2.random() > 0.125:
+        return
+    b = plan["cfg"]["bitlength"]
+    edge = [-(1 << (b - 1)), (1 << (b - 1)) - 1, 1 << (b - 1), (1 << b) - 1, 1 << b, 0, -1, -(1 << b)]
+    n_i = sum(1 for i in plan["inputs"] if i["t"] == "I")
+    n_b = sum(1 for i in plan["inputs"] if i["t"] == "B")
+    plan["inputs"].append({"kind": "priv", "t": "I", "v": r2.choice(edge)})
+    plan["inputs"].append({"kind": "priv", "t": "I", "v": r2.choice(edge)})
+    plan["inputs"].append({"kind": "priv", "t": "B", "v": r2.choice([1, 1, 1, 0])})
+    x, y, c = {"ref": n_i, "t": "I"}, {"ref": n_i + 1, "t": "I"}, {"ref": n_b, "t": "B"}
+    body = []
+    for _ in range(r2.randrange(1, 4)):
+        u = r2.random()
+        if u < 0.6:
+            e = {"op": r2.choice(["<", "<=", ">", ">="]), "a": x, "b": y, "t": "B"}
+        elif u < 0.75:
+            e = {"call": "check_positive", "args": [{"op": "-", "a": x, "b": y, "t": "I"}], "t": "B"}
+        elif u < 0.9:
+            e = {"un": "abs", "a": {"op": "-", "a": y, "b": x, "t": "I"}, "t": "I"}
+        else:
+            e = {"op": ">>", "a": x, "b": {"k": 1, "t": "I"}, "t": "I"}
+        body.append({"s": "let", "e": e, "try": True})
+    plan["body"].append({"s": "guarded", "cond": c, "body": body, "try": True})
+
+
 class TraceCheck:
     """Base for checks decided by tracesim."""
     props = ()
@@ -103,6 +135,7 @@ class TraceCheck:
         w = swarm_weights(rng, self.weights, self.toggles)
         plan = P.generate(rng, cfg, w)
         late_modulus_tail(plan)
+        boundary_region_tail(plan)
         return {"plan": plan, "faults": draw_faults(rng, self.fault_kinds, plan)}
 
     def execute(self, case):
@@ -563,6 +596,21 @@ class C02(ProverCheck):
             body = [region] + [{"s": "let", "e": bitop()} for _ in range(rng.choice([1, 2]))]
             return {"plan": {"cfg": cfg, "inputs": inputs, "body": body}, "seed": rng.randrange(1 << 30),
                     "deep": tier == "thorough"}
+        if i % 16 == 1:
+            # selection between a boolean and a raw (undeclared) secret integer, either way round, and the result used
+            # where a boolean is expected
+            cfg["max_nesting"] = 0
+            inputs = [{"kind": "priv", "t": "I", "v": rng.choice([0, 1, 2, 5, -1, 3])},
+                      {"kind": "priv", "t": "B", "v": rng.randrange(2)}, {"kind": "priv", "t": "B", "v": rng.randrange(2)}]
+            args = [{"ref": 0, "t": "B"}, {"ref": 1, "t": "B"}, {"ref": 0, "t": "I"}]
+            if rng.random() < 0.5:
+                args[1], args[2] = args[2], args[1]
+            body = [{"s": "let", "e": {"call": "ite", "args": args, "t": "I"}}]
+            if rng.random() < 0.5:
+                body.append({"s": "let", "e": {"op": rng.choice(["&", "|", "^"]), "a": {"ref": 1, "t": "B"},
+                                               "b": {"ref": 1, "t": "I"}, "t": "B"}})
+            return {"plan": {"cfg": cfg, "inputs": inputs, "body": body}, "seed": rng.randrange(1 << 30),
+                    "deep": tier == "thorough"}
         if i % 8 == 5:
             # a tiny program over the oblivious block API: the merged variables are results like any other, and no
             # lie on a hint wire (selection bits, loop conditions, guards) may move them
@@ -589,9 +637,31 @@ class C02(ProverCheck):
         tr = honest(plan)
         probes, faults, viol = {}, {}, []
         if tr is None:
-            return {"violations": [], "digest": "discard", "nontrivial": None, "events": 0, "faults": {},
-                    "probes": {"honest_run_raised_discarded": 1}, "sigs": [], "discarded": True}
+            # the checked run raised. The prover who removed the checks still runs it: whatever the library hands
+            # back typed boolean must then be 0/1 or some constraint must be violated
+            d = PV.run_plan(plan, nocheck=True)
+            if d.outcome == "completed" and not d.caught and not d.type_leak:
+                t = PV.Trace(d)
+                if not t.unsat(t.base_assignment()):
+                    for r_ in t.results:
+                        if r_["t"] == "B" and r_["value"] not in (0, 1):
+                            viol.append({"property": self.prop, "oracle": "nonboolean_result",
+                                         "site": dict(r_["desc"], mode="nocheck"),
+                                         "detail": "checks off: %s is a LinCombBool with value %d and all %d constraints "
+                                                   "hold" % (r_["name"], r_["value"], len(t.cons))})
+                            break
+                probes["nocheck_run_of_rejected_plan"] = 1
+            return {"violations": viol, "digest": E.sha(("discard", [v["detail"] for v in viol])), "nontrivial": None,
+                    "events": d.steps, "faults": {"nocheck": 1}, "probes": dict(probes, honest_run_raised_discarded=1),
+                    "sigs": [], "discarded": not viol}
         trace = self.attack_trace(case, tr, rng, viol, probes, faults)
+        for r_ in trace.results:
+            # (honest run) an object the library typed boolean must hold 0 or 1
+            if r_["t"] == "B" and r_["value"] not in (0, 1):
+                s_ = dict(r_["desc"], mode="honest")
+                if not any(x["site"] == s_ for x in viol):
+                    viol.append({"property": self.prop, "oracle": "nonboolean_result", "site": s_,
+                                 "detail": "%s is a LinCombBool with value %d in the honest run" % (r_["name"], r_["value"])})
         nt = P.plan_digest(plan) if trace.hints and not probes.get("honest_trace_unsat_discarded") else None
         return {"violations": viol, "digest": E.sha((tr.digest_material(), [v["detail"] for v in viol],
                                                      faults, probes)),
@@ -1015,7 +1085,9 @@ class C16(ProverCheck):
             m = 2 if k == "bool" else sc[1]
             v = rng.randrange(0, m)
             if oor and rng.random() < 0.3 and k == "int":
-                v = rng.choice([m, m + 1, -1, 1 << (m - 1).bit_length()])
+                # (m, m + 1 and 2^width - 1 lie in the gap between the modulus and the next power of two)
+                v = rng.choice([m, m, m + 1, (1 << (m - 1).bit_length()) - 1 if m & (m - 1) else m, -1,
+                                1 << (m - 1).bit_length()])
                 oor.append(v)
             secret = rng.random() < 0.5
             expect.append(v)
@@ -1064,7 +1136,7 @@ class C16(ProverCheck):
                         "body": [{"s": "unpack_raw", "schema": sc, "nbits": nb}]}
                 return {"mode": "unpack_raw", "plan": plan, "seed": rng.randrange(1 << 30)}
         inputs, expect, oor = [], [], []
-        want_oor = [] if rng.random() < 0.8 else [None]
+        want_oor = [] if rng.random() < 0.65 else [None]
         sc = self.gen_schema(rng, rng.choice([0, 1, 2, 3]), [24])
         if want_oor:
             want_oor.clear()
@@ -1506,6 +1578,16 @@ class FileCheck(TraceCheck):
 
     def gen(self, rng, i, tier):
         cfg = self.cfg(rng)
+        if i % 8 == 3:
+            # sweep over the NUMBER of public values (0..139, one count per run): buffer growth and chunking in the
+            # writers depend on it and on nothing else
+            n = (i // 8) % 140
+            plan = {"cfg": cfg, "inputs": [{"kind": "priv", "t": "I", "v": rng.randrange(2, 9)}],
+                    "body": [{"s": "bulk_pub", "n": n},
+                             {"s": "let", "e": {"op": "*", "a": {"ref": 0, "t": "I"}, "b": {"ref": 0, "t": "I"}, "t": "I"}}]}
+            if rng.random() < 0.5:
+                plan["body"].append({"s": "val", "a": {"ref": 1, "t": "I"}})
+            return {"plan": plan, "alt_inputs": [rng.randrange(2, 9)], "stale_dir": False}
         w = swarm_weights(rng, self.weights, self.toggles)
         plan = P.generate(rng, cfg, w)
         # interleave public and private allocations: more public inputs than the default
@@ -2192,6 +2274,17 @@ if _rt.backend_name != "nobackend":
         _t = ggh_hash([PrivVal(b) for b in _bits])
         _side({"ev": "ggh", "bits": _bits, "traced": _t.value, "plain": ggh_hash_plain(_bits),
                "ncons": _rt.num_constraints - _n0, "modulus": _b.get_modulus()})
+        # the same bits as the library's own boolean type (what to_bits() hands out), and with some of them public
+        for _kind, _mk in (("bool", lambda j, b: PrivValBool(b)),
+                           ("mixed", lambda j, b: b if _cfg.get("ggh_public", [])[j % max(1, len(_cfg.get("ggh_public", [1])))] else PrivVal(b))):
+            if _kind == "mixed" and not any(_cfg.get("ggh_public", [])):
+                continue
+            try:
+                _t = ggh_hash([_mk(j, b) for j, b in enumerate(_bits)])
+                _side({"ev": "ggh", "bits": _bits, "traced": getattr(_t, "value", _t), "plain": ggh_hash_plain(_bits),
+                       "modulus": _b.get_modulus(), "kind": _kind})
+            except Exception as _e:
+                _side({"ev": "ggh_raised", "bits": _bits, "kind": _kind, "error": type(_e).__name__ + ": " + str(_e)[:120]})
 _rt.autoprove = False
 '''
 
@@ -2257,6 +2350,7 @@ class C20(TraceCheck):
         other = rng.choice([b for b in self.BACKENDS if b != backend])
         case = {"path": path, "backend": backend, "other": other, "perm_inputs": perm, "messages": messages,
                 "bitstrings": bits}
+        case["ggh_public"] = [rng.randrange(2) for _ in range(rng.choice([1, 2, 3, 5]))]
         if rng.random() < 0.35:
             # history: the first hashes of the run happen inside a region guarded by a secret condition (taken or
             # not), e.g. an optional Merkle level; whatever they leave behind must not change later hashes
@@ -2270,6 +2364,7 @@ class C20(TraceCheck):
                "preimport": [], "importfail": []}
         if case.get("guarded_first"):
             cfg["guarded_first"] = case["guarded_first"]
+        cfg["ggh_public"] = case.get("ggh_public", [])
         if path == "env":
             env["PYSNARK_BACKEND"] = backend
         elif path == "preimport":
@@ -2353,6 +2448,9 @@ class C20(TraceCheck):
                 if len(s) > 1:
                     add("constraint_count_depends_on_input", "%s: %r constraints for inputs of equal length" % (k, sorted(s)))
         for e in ev:
+            if e["ev"] == "ggh_raised":
+                add("ggh_raised", "subset-sum hash of %d %s bits raised %s" % (len(e["bits"]), e["kind"], e["error"]),
+                    kind=e["kind"])
             if e["ev"] == "ggh":
                 if e["traced"] % e["modulus"] != e["plain"] % e["modulus"]:
                     add("ggh_ne_plain", "traced subset-sum hash differs from the plain one on %d bits" % len(e["bits"]))
@@ -2543,6 +2641,9 @@ class BlockGen:
             self.lists["m0"] = [2, rng.randrange(1, 3)]
         if self.small:
             self.names, self.lists = self.names[:1], {}
+        # plain Python lists outside the BranchingValues object that get bound to the list variable l0 as a whole
+        # (`_.best = offer`); l0 is then never written cell by cell (Python-level aliasing is the caller's business)
+        self.ext = ["e0", "e1"] if ("l0" in self.lists and rng.random() < 0.5) else []
         self.n_inputs = 0
         self.loopvars = []
         self.depth = 0
@@ -2551,8 +2652,11 @@ class BlockGen:
         # (1 - comparison) or stays public, depending on what the blocks assign
         self.flags = ["g0"] if rng.random() < (0.6 if self.small else 0.35) else []
 
-    def cell(self):
-        nm = self.r.choice(sorted(self.lists))
+    def cell(self, write=False):
+        names = sorted(n for n in self.lists if not (write and self.ext and n == "l0"))
+        if not names:
+            return None
+        nm = self.r.choice(names)
         return nm, [self.r.randrange(d) for d in self.lists[nm]]
 
     def leaf(self):
@@ -2561,6 +2665,8 @@ class BlockGen:
         if self.lists and u < 0.12:
             nm, path = self.cell()
             return {"tv": nm, "path": path}
+        if self.ext and u < 0.2:
+            return {"ext": r.choice(self.ext), "path": [r.randrange(self.lists["l0"][0])]}
         if u < 0.45:
             return {"tv": r.choice(self.names)}
         if u < 0.6 and self.loopvars:
@@ -2576,12 +2682,16 @@ class BlockGen:
             return self.leaf()
         if u < 0.8:
             return {"op": r.choice(["+", "-"]), "a": self.leaf(), "b": self.leaf()}
-        if u < 0.88:
+        if u < 0.86:
             return {"op": "*", "a": self.leaf(), "b": {"k": r.choice([0, 1, 2, -1])}}
+        if u < 0.89:
+            return self.cmp()        # a comparison result stored in an integer variable (merged with integers later)
         if u < 0.92 and not self.small:
             # operations that compute their result from hint wires (quotient, remainder, bits): under a false
             # block guard those hints are dummies and the merged result must still be the native one
-            return {"op": r.choice(["//", "%", ">>"]), "a": self.leaf(), "b": {"k": r.choice([1, 2, 3])}}
+            # ("+ 0": a variable may hold a stored comparison result, and booleans have no // % >>)
+            return {"op": r.choice(["//", "%", ">>"]), "a": {"op": "+", "a": self.leaf(), "b": {"k": 0}},
+                    "b": {"k": r.choice([1, 2, 3])}}
         return {"call": r.choice(["ite", "ite_lazy"]), "cond": self.cmp(), "t_": self.leaf(), "f_": self.leaf()}
 
     def secret(self, e):
@@ -2628,9 +2738,12 @@ class BlockGen:
         if self.depth >= self.cfg.get("max_nesting", 2) or u < 0.5:
             if self.flags and r.random() < 0.2:
                 return {"s": "track", "name": "g0", "e": self.flag_expr()}
+            if self.ext and r.random() < 0.3:
+                return {"s": "track", "name": "l0", "e": {"ext": r.choice(self.ext)}}
             if self.lists and r.random() < 0.45:
-                nm, path = self.cell()
-                return {"s": "track", "name": nm, "path": path, "e": self.expr()}
+                c = self.cell(write=True)
+                if c is not None:
+                    return {"s": "track", "name": c[0], "path": c[1], "e": self.expr()}
             return {"s": "track", "name": r.choice(self.names), "e": self.expr()}
         self.depth += 1
         try:
@@ -2710,6 +2823,8 @@ class BlockGen:
                                       {"k": r.choice([0, 1, 2, 3, 9])}) for _ in range(d[0])]}
                 return {"list": [lit(d[1:]) for _ in range(d[0])]}
             body.append({"s": "tracked_init", "name": nm, "e": lit(dims)})
+        for nm in self.ext:
+            body.append({"s": "ext_list", "name": nm, "e": lit(self.lists["l0"])})
         for _ in range(r.randrange(1, 3 if self.small else 5)):
             body.append(self.stmt())
         if self.flags and r.random() < (0.6 if self.small else 0.4):
@@ -2723,7 +2838,8 @@ class BlockGen:
             lb.insert(r.randrange(0, len(lb) + 1),
                       {"s": "track", "name": "g0", "e": {"op": "-", "a": {"k": 1}, "b": self.cmp()}})
             loop = {"s": "block_while", "cond": {"tv": "g0"}, "max": r.randrange(2, 4), "body": lb}
-            body.insert(r.randrange(len(self.names) + len(self.flags) + len(self.lists), len(body) + 1), loop)
+            n_init = sum(1 for s_ in body if s_["s"] in ("tracked_init", "ext_list"))
+            body.insert(r.randrange(n_init, len(body) + 1), loop)
         return {"cfg": self.cfg, "inputs": inputs, "body": body, "blocks": True}
 
 
@@ -3871,8 +3987,10 @@ def judge_qap_run(run, plan):
                 yield "public_value_not_tied", {}, "public value %r of wire %s has no o_ wire with a linking equation" % (
                     val, sid)
                 break
-    # cross-context equations
+    # cross-context equations (a program that itself reaches into its caller's secrets is judged at proving time)
     for it in items:
+        if mixed_context_fault(plan, items):
+            break
         if it[0] == "eq" and len(Q.ctx_of_terms(it[1], it[2], it[3])) > 1:
             yield "eq_mixes_contexts", {}, "equation %r mixes function contexts" % it[4]
             break
@@ -3918,9 +4036,39 @@ def judge_qap_run(run, plan):
         yield "glue_incomplete", {"what": "count"}, "%d sub-circuit calls, %d [glue] lines" % (ncalls, nglue)
 
 
+def mixed_context_fault(plan, items=None):
+    """True when the plan calls a sub-circuit function that multiplies by a secret of its caller (template 8)."""
+    fns = plan.get("subqaps", [])
+    bad = {k for k, f in enumerate(fns) if f["tmpl"] == 8}
+    if not bad:
+        return False
+
+    def calls(body):
+        for s in body:
+            if s.get("s") == "subqap_call" and (s["fn"] % len(fns)) in bad:
+                return True
+            for k in ("body", "true", "false"):
+                if isinstance(s.get(k), list) and calls(s[k]):
+                    return True
+        return False
+    inner = any(f["tmpl"] == 3 and f.get("inner") in bad for f in fns)
+    return calls(plan["body"]) or inner
+
+
 def judge_qap_prove(run, plan, faults):
     fs = run.fs
     eqs = run.eqs_complete
+    if mixed_context_fault(plan):
+        try:
+            mixed = any(it[0] == "eq" and len(Q.ctx_of_terms(it[1], it[2], it[3])) > 1 for it in Q.parse_eqs(eqs))
+        except Exception:
+            mixed = False
+        if mixed:
+            # the trace holds an equation over wires of two calls: proving must refuse it, not file it somewhere
+            if run.prove_outcome == "returned" or "Inconsistent contexts" not in ((run.prove_outcome or "") + run.stderr):
+                yield "mixed_context_not_reported", {}, "an equation mixes the wires of two calls but the proving step " \
+                    "ended with %s" % run.prove_outcome
+            return
     exp, per_ctx = Q.expected_function_files(eqs)
     calls = run.calls
     # visibility at read time
@@ -4046,6 +4194,9 @@ class C12(TraceCheck):
                             "inner": rng.randrange(0, k) if k else None})
             if subqaps[-1]["tmpl"] in (6, 7):
                 subqaps[-1]["nargs"] = 0
+            if rng.random() < 0.04:
+                subqaps[-1]["tmpl"], subqaps[-1]["swap"] = 8, rng.random() < 0.5
+                subqaps[-1]["nargs"] = max(1, subqaps[-1]["nargs"])
         same_name = nf >= 2 and rng.random() < 0.08
         if same_name:
             subqaps[1]["name"] = subqaps[0]["name"]
